@@ -252,6 +252,8 @@ def check(ctx: Ctx) -> None:
             b["payoff"] = [0, 1]
     replay(probe, bad)
     ctx.selftest("an expected binary payoff flipped on a tie with the strike is rejected", len(probe.violations) > 0)
+    from checks import suite_oracles
+    suite_oracles.suite(ctx, "payoff")    # every payoff computed in the repository's own tests against the contract
     ctx.traces_validated = len(recs)
     ctx.exhaustive = True
     ctx.rule = ("every terminal state of Payoff.tla: all paths over {1,2,4}^T (T=1..4), 6 strikes (at, between, outside lattice points), "
